@@ -179,6 +179,26 @@ def r3b_db_rewrite_replaces_rows(ctx):
             r.ok(k, cfg.loc(b, dels[0]), "delete_all_secrets precedes insert_folder_secrets when the folder already exists", work=len(live))
     if not found:
         r.anchor_missing("insert_folder_secrets call in upsert_folder_and_secrets")
+    # replace_all_secrets (force merge / import): "replace" = delete, then insert
+    rep = [f2 for f2 in ws.fns.values() if re.search(r"FolderEntity.*::replace_all_secrets$", f2.root)]
+    if not rep:
+        r.anchor_missing("FolderEntity::replace_all_secrets")
+    for f2 in rep:
+        seen = False
+        for b in f2.bodies:
+            live = cfg.live_blocks(b)
+            ins = [i for i, t in idioms.real_calls(b, live) if cname(t) in ("insert_secret_by_row_id", "insert_folder_secrets", "insert_secret")]
+            if not ins:
+                continue
+            seen = True
+            dels = [i for i, t in idioms.real_calls(b, live) if cname(t) == "delete_all_secrets"]
+            k = f2.root + "|delete-before-insert"
+            if not dels or any(x in cfg.reach(b, [0], cut_blocks=dels) for x in ins):
+                r.violation(k, cfg.loc(b, ins[0]), "replace_all_secrets inserts the new rows without first deleting the folder's old ones: secrets absent from the incoming vault stay in the database (the insert is an upsert, so nothing fails)", work=len(live))
+            else:
+                r.ok(k, cfg.loc(b, dels[0]), "delete_all_secrets dominates every insert", work=len(live))
+        if not seen:
+            r.anchor_missing("insert calls in replace_all_secrets")
 
 
 PARTIAL_IO_OK = {
